@@ -75,6 +75,11 @@ mod vharness {
         let t = if upper { &HEXU } else { &HEXL };
         out[at] = t[(cu >> 12) as usize & 15]; out[at + 1] = t[(cu >> 8) as usize & 15]; out[at + 2] = t[(cu >> 4) as usize & 15]; out[at + 3] = t[cu as usize & 15];
     }
+    /// loop-free: is `a` exactly the first n (<= 8) bytes of w?  (keeps the harness's own loops out of the global unwinding bound)
+    fn same8(a: &[u8], w: &[u8; 8], n: usize) -> bool {
+        a.len() == n && (n < 1 || a[0] == w[0]) && (n < 2 || a[1] == w[1]) && (n < 3 || a[2] == w[2]) && (n < 4 || a[3] == w[3])
+            && (n < 5 || a[4] == w[4]) && (n < 6 || a[5] == w[5]) && (n < 7 || a[6] == w[6]) && (n < 8 || a[7] == w[7])
+    }
     fn is_sur(cu: u16) -> bool { cu >= 0xD800 && cu <= 0xDFFF }
     fn enc(buf: &mut [u8; 8], n: &mut usize, cp: u32) {
         // independent UTF-8 encoder (specification side)
@@ -85,9 +90,9 @@ mod vharness {
     }
     fn same(a: &[u8], b: &[u8]) -> bool { if a.len() != b.len() { return false; } let mut i = 0; while i < a.len() { if a[i] != b[i] { return false; } i += 1; } true }
 
-    //@harness props=C14,C01 strength=proof clause="two adjacent \\uXXXX escapes in a quoted string, for EVERY pair of 16-bit code units and either hex-digit case: a non-surrogate first unit is that code point and the second escape is decoded independently (a lone surrogate there is an InvalidUtf16EscapeSequence error); a high surrogate followed by a low surrogate is the one supplementary code point 0x10000 + ((hi - 0xD800) << 10) + (lo - 0xDC00); any other surrogate combination is an InvalidUtf16EscapeSequence error naming both units; nothing is dropped or merged otherwise; the token spans the whole literal" timeout=900 replay=lex_unicode_pair
+    //@harness props=C14,C01 strength=proof tier=thorough clause="two adjacent \\uXXXX escapes in a quoted string, for EVERY pair of 16-bit code units and either hex-digit case: a non-surrogate first unit is that code point and the second escape is decoded independently (a lone surrogate there is an InvalidUtf16EscapeSequence error); a high surrogate followed by a low surrogate is the one supplementary code point 0x10000 + ((hi - 0xD800) << 10) + (lo - 0xDC00); any other surrogate combination is an InvalidUtf16EscapeSequence error naming both units; nothing is dropped or merged otherwise; the token spans the whole literal" timeout=900 replay=lex_unicode_pair
     #[kani::proof]
-    #[kani::unwind(9)]
+    #[kani::unwind(4)]
     fn quoted_unicode_escape_pair() {
         let (cu1, cu2): (u16, u16) = (kani::any(), kani::any());
         let upper: bool = kani::any();
@@ -110,7 +115,7 @@ mod vharness {
             Ok(tok) => {
                 assert!(want_err.is_none(), "C14:lexlit:invalid-surrogate-combination-is-an-error");
                 match tok.kind {
-                    TokenKind::String(s) => assert!(same(s.as_bytes(), &want[..n]), "C14:lexlit:unicode-escapes-decode-to-exactly-the-code-points-the-grammar-assigns"),
+                    TokenKind::String(s) => assert!(same8(s.as_bytes(), &want, n), "C14:lexlit:unicode-escapes-decode-to-exactly-the-code-points-the-grammar-assigns"),
                     _ => assert!(false, "C14:lexlit:quoted-string-yields-a-string-token"),
                 }
                 assert!(tok.span == SpanId(0, 14), "C14:lexlit:string-token-spans-the-whole-literal");
@@ -121,6 +126,61 @@ mod vharness {
             Err(_) => assert!(false, "C14:lexlit:no-other-error-for-wellformed-hex-escapes"),
         }
         kani::cover!(cu1 >= 0xD000 && cu1 < 0xD800, "cover:lexlit:hangul-range-first-unit");
+    }
+
+    //@harness props=C14,C01 strength=proof clause="ONE \\uXXXX escape in a quoted string, EVERY 16-bit code unit, either hex case: a non-surrogate unit decodes to that code point; a surrogate not followed by another escape is an InvalidUtf16EscapeSequence error" timeout=900 replay=lex_unicode_pair
+    #[kani::proof]
+    #[kani::unwind(4)]
+    fn quoted_unicode_escape_single() {
+        let cu1: u16 = kani::any();
+        let upper: bool = kani::any();
+        let mut input = *b"\"\\u0000\"";
+        hex4(&mut input, 3, cu1, upper);
+        let arena = Arena; let interner = StrInterner(core::marker::PhantomData); let mut mgr = SpanManager { len: 8 };
+        let mut lx = lexer(&arena, &interner, &mut mgr, &input[..], 1);
+        let r = lx.lex_quoted_string(b'"');
+        let mut want = [0u8; 8]; let mut n = 0usize;
+        if !is_sur(cu1) { enc(&mut want, &mut n, cu1 as u32); }
+        match r {
+            Ok(tok) => {
+                assert!(!is_sur(cu1), "C14:lexlit:invalid-surrogate-combination-is-an-error");
+                match tok.kind { TokenKind::String(s) => assert!(same8(s.as_bytes(), &want, n), "C14:lexlit:unicode-escapes-decode-to-exactly-the-code-points-the-grammar-assigns"), _ => assert!(false, "C14:lexlit:quoted-string-yields-a-string-token") }
+                assert!(tok.span == SpanId(0, 8), "C14:lexlit:string-token-spans-the-whole-literal");
+            }
+            Err(LexError::InvalidUtf16EscapeSequence { cu1: a, cu2: b, .. }) => assert!(is_sur(cu1) && a == cu1 && b.is_none(), "C14:lexlit:valid-escapes-are-not-rejected-and-the-error-names-the-offending-units"),
+            Err(_) => assert!(false, "C14:lexlit:no-other-error-for-wellformed-hex-escapes"),
+        }
+    }
+
+    //@harness props=C14,C01 strength=proof clause="\\uXXXX\\uYYYY in a quoted string whose first unit lies in U+D000..U+DFFF (all 4096: the surrogates and the 2048 code points below them that share their leading hex digit) and whose second unit is ANY 16-bit value (lower-case hex): a non-surrogate first unit is its own code point and the second escape is decoded independently; a high surrogate followed by a low surrogate is the one supplementary code point; any other surrogate combination is an error naming both units" timeout=1200 replay=lex_unicode_pair
+    #[kani::proof]
+    #[kani::unwind(4)]
+    fn quoted_unicode_escape_pair_d_block() {
+        let lo12: u16 = kani::any(); kani::assume(lo12 < 0x1000);
+        let cu1: u16 = 0xD000 | lo12;
+        let cu2: u16 = kani::any();
+        let mut input = *b"\"\\ud000\\u0000\"";
+        input[4] = HEXL[(cu1 >> 8) as usize & 15]; input[5] = HEXL[(cu1 >> 4) as usize & 15]; input[6] = HEXL[cu1 as usize & 15];
+        hex4(&mut input, 9, cu2, false);
+        let arena = Arena; let interner = StrInterner(core::marker::PhantomData); let mut mgr = SpanManager { len: 14 };
+        let mut lx = lexer(&arena, &interner, &mut mgr, &input[..], 1);
+        let r = lx.lex_quoted_string(b'"');
+        let mut want = [0u8; 8]; let mut n = 0usize;
+        let mut want_err: Option<(u16, Option<u16>)> = None;
+        if !is_sur(cu1) {
+            enc(&mut want, &mut n, cu1 as u32);
+            if !is_sur(cu2) { enc(&mut want, &mut n, cu2 as u32); } else { want_err = Some((cu2, None)); }
+        } else if cu1 < 0xDC00 && cu2 >= 0xDC00 && cu2 <= 0xDFFF {
+            enc(&mut want, &mut n, 0x10000 + (((cu1 - 0xD800) as u32) << 10) + (cu2 - 0xDC00) as u32);
+        } else { want_err = Some((cu1, Some(cu2))); }
+        match r {
+            Ok(tok) => {
+                assert!(want_err.is_none(), "C14:lexlit:invalid-surrogate-combination-is-an-error");
+                match tok.kind { TokenKind::String(s) => assert!(same8(s.as_bytes(), &want, n), "C14:lexlit:unicode-escapes-decode-to-exactly-the-code-points-the-grammar-assigns"), _ => assert!(false, "C14:lexlit:quoted-string-yields-a-string-token") }
+            }
+            Err(LexError::InvalidUtf16EscapeSequence { cu1: a, cu2: b, .. }) => assert!(want_err == Some((a, b)), "C14:lexlit:valid-escapes-are-not-rejected-and-the-error-names-the-offending-units"),
+            Err(_) => assert!(false, "C14:lexlit:no-other-error-for-wellformed-hex-escapes"),
+        }
     }
 
     //@harness props=C14,C01 strength=proof clause="single-character escapes, for EVERY byte after the backslash: \\\" \\' \\\\ \\/ \\b \\f \\n \\r \\t decode to exactly \" ' \\ / U+0008 U+000C U+000A U+000D U+0009; every other byte is an error (never silently kept or dropped)" timeout=600
@@ -178,7 +238,7 @@ mod vharness {
 
     //@harness props=C14,C01 strength=proof expect=fail clause="canary"
     #[kani::proof]
-    #[kani::unwind(9)]
+    #[kani::unwind(4)]
     fn lexlit_canary() {
         let (cu1, cu2): (u16, u16) = (kani::any(), kani::any());
         let mut input = *b"\"\\u0000\\u0000\"";
